@@ -26,6 +26,7 @@ RULE = (
     "warning per non-member. Oracle: member => datum with exactly the written integers / the word "
     "verbatim; non-member => RegexNotMatchError. Non-trivial iff a positive has a >= 5-digit number or "
     "padding, or a negative is within one slot / edit of a member; distinct = distinct string."
+    ' Whether a non-member line is REPORTED is not judged here (C14). Non-members that differ from a following member in nothing but the index digit are drawn.'
 )
 ASSUMPTIONS = [
     "alphabet: ASCII digits, blank and tab as padding, printable ASCII and selected non-ASCII letters in "
